@@ -186,5 +186,103 @@ def wfBody : Body → Bool
 def decodeFull (c : Cfg) (b : Body) (bs : Bytes) : Dec Value :=
   (decBody c b bs).bind fun (v, r) => if r.isEmpty then .ok v else .err .trailingBytes
 
+/-! ### the serializer (`FieldSerializer`) -/
+
+/-- the checks and the packing of one bit-field group as python.rs emits them: scalars, sizes and counts are
+    range-checked (`ValueError`), enum values are not validated (anything that does not fit the group makes
+    `int.to_bytes` / `bytearray.append` raise), the flag is taken from the FIRST optional field it governs
+    without a consistency check; size modifiers are applied to payloads and arrays alike -/
+def encChunkFields (items : Items) (payloadLen : Nat) (v : Value) : List BitField → Nat → Nat → Enc Nat
+  | [], _, acc => .ok acc
+  | f :: fs, shift, acc =>
+    let next (x : Nat) := encChunkFields items payloadLen v fs (shift + f.width) (acc + x * 2 ^ shift)
+    match f with
+    | .scalar id w => (natField v id).bind fun x => if x > maskBits w then .err .invalidScalarValue else next x
+    | .flag _ opts =>
+      match opts with
+      | [] => .panic .badLayout
+      | (o, setv) :: _ => next (if isPresent v o then setv else 1 - setv)
+    | .enumTy id _ e => (natField v id).bind fun x => if x ≥ 2 ^ e.width then .err .invalidScalarValue else next x
+    | .fixed _ c => next c
+    | .reserved _ => next 0
+    | .size t w m =>
+      (sizeOfTarget items t payloadLen v).bind fun s => if s + m > maskBits w then .err .sizeOverflow else next (s + m)
+    | .count t w => (listField v t).bind fun vs => if vs.length > maskBits w then .err .countOverflow else next vs.length
+    | .elemSize _ _ => .panic .badLayout       -- `todo!()`
+
+/-- `_span.extend([0] * (padded - written))`: a negative count appends nothing, no error -/
+def pad (p : Option Nat) (bs : Bytes) : Bytes :=
+  match p with
+  | none => bs
+  | some n => bs ++ zeros (n - bs.length)
+
+mutual
+def encTy (c : Cfg) : Ty → Value → Enc Bytes
+  | .scalar w, v =>
+    match v with
+    | .int x => if x < 2 ^ w then .ok (putUint c.e w x) else .err .invalidScalarValue      -- OverflowError
+    | _ => .panic .badValue
+  | .enumTy _ en, v =>
+    match v with
+    | .int x => if x < 2 ^ en.width then .ok (putUint c.e en.width x) else .err .invalidScalarValue
+    | _ => .panic .badValue
+  | .custom _ _, _ => .panic .badLayout
+  | .struct _ b, v => encBody c b v
+
+def encItem (c : Cfg) (all : Items) (payload : Bytes) (v : Value) : Item → Enc Bytes
+  | .chunk fs => (encChunkFields all payload.length v fs 0 0).bind fun x => .ok (putUint c.e (chunkBits fs) x)
+  | .typedef id ty _ =>
+    match v.get? id with
+    | some x => encTy c ty x
+    | none => .panic .badValue
+  | .optional id ty _ _ =>
+    match v.get? id with
+    | some .null | none => .ok []
+    | some x => encTy c ty x
+  | .payload _ => .ok payload
+  | .array id elem _ _ pd =>
+    (listField v id).bind fun vs => (encListWith (encTy c elem) vs).bind fun bs => .ok (pad pd bs)
+
+def encItems (c : Cfg) (all : Items) (payload : Bytes) (v : Value) : Items → Enc Bytes
+  | .nil => .ok []
+  | .cons i r => (encItem c all payload v i).bind fun a => (encItems c all payload v r).bind fun b => .ok (a ++ b)
+
+/-- `serialize()` of a packet or struct without parent -/
+def encBody (c : Cfg) : Body → Value → Enc Bytes
+  | .root _ items, v =>
+    match (if items.hasPayload then (v.get? "payload").bind valBytes else some []) with
+    | none => .panic .badValue
+    | some p => encItems c items p v items
+  | .derived .., _ => .panic .badLayout
+end
+
+mutual
+/-- serializer side of the class: no element-size fields, no custom fields, enums narrower than ... -/
+def serWfTy : Ty → Bool
+  | .custom .. => false
+  | .struct _ (.root _ items) => serWfItems items
+  | .struct _ (.derived ..) => false
+  | .scalar w => decide (w ≤ 64)
+  | .enumTy _ e => decide (e.width ≤ 64)
+def serWfItem : Item → Bool
+  | .chunk fs => fs.all fun f => match f with
+      | .elemSize .. => false
+      | .scalar _ w => decide (w ≤ 64)
+      | .enumTy _ _ e => decide (e.width ≤ 64)
+      | .count _ w => decide (w ≤ 64)
+      | _ => true
+  | .typedef _ ty _ => serWfTy ty
+  | .optional _ ty _ _ => serWfTy ty
+  | .payload _ => true
+  | .array _ elem _ _ _ => serWfTy elem
+def serWfItems : Items → Bool
+  | .nil => true
+  | .cons i r => serWfItem i && serWfItems r
+end
+
+def serWfBody : Body → Bool
+  | .root _ items => serWfItems items
+  | .derived .. => false
+
 end Py
 end Pdlv
